@@ -157,6 +157,38 @@ PROPS["C10"] = {
     ],
     "assumptions": ["adapters awaited inline (status, authenticate, localize) return", "one input at a time reaches the handler (frame-level atomicity is C08's subject)"],
 }
+PROPS["C04"] = {
+    "runner": "c04",
+    "design_ref": "DESIGN.md §6 C04",
+    "technique": "Lean 4 theorems: decoders total with explicit panic outcome never reached (induction over schemas), inner lengths bounded by received bytes, illegal frame length refused at the prefix, receive buffer bounded by 5+max for every input list, EOF terminates, finish => done; extracted panic-site table must be a subset of the accounted sites (decide); differential byte-level runs with task-panic capture and a counting allocator",
+    "level_text": "Machine-checked proofs for every byte sequence and every input interleaving: no decoder of any packet schema can reach a panic outcome (negative, zero, huge, off-by-one inner lengths, over-long VarInts, invalid UTF-8, bad ordinals all yield error values); a length-prefixed field is only produced from bytes actually present; a frame whose declared length is <= 0 or > max ends the connection at the byte completing the prefix with nothing buffered; the receive buffer never exceeds 5 + max bytes in any reachable state; EOF finishes the handler in that step and it is silent afterwards; whenever a result is reported the connection is done. Every syntactic panic/allocation site of the anchored files is re-extracted on every run and must be in the accounted list. The real handler is run on mutated transcripts with panic capture and the largest single allocation measured.",
+    "level_note": "Trusted: Lean kernel; L1 hand-written, tied by differential runs; panic-site patterns of the extractor; std/tokio Vec growth policy (bound 4*(max+5)+64KiB per single allocation in the oracle); third-party crates covered by runs only.",
+    "lean_modules": ["Passage.Props.C04"],
+    "cases": {"quick": 1600, "thorough": 60000},
+    "rule": "legal transcripts (all intents, cookies, long hosts/names) with one mutation: outer length -1/MIN/0/max/max+1/2^31-1/off-by-one/over-long 5-byte VarInt; first inner length -1/MIN/2^31-1/2^30/remaining(+1)/70000; truncation at a random offset + EOF; invalid UTF-8; enum ordinals out of range; garbage RSA blocks and secrets of 0/1/15/17/100 bytes; random bytes before and after the cipher switch; EOF at any step; max frame 64..100000; non-trivial = every mutated scenario; distinct = distinct request lines",
+    "trusted_base": TB_COMMON + [
+        "L1 = frame assembler + L0 machine, hand transliteration of receive_packet/next_frame/send_packet; tied by differential byte-level runs of the real Connection (segmented writes, throttled transport, counting allocator, catch of task panics)",
+        "Env oracles as for the frame-level properties; tokio select!/take/read_buf semantics modelled",
+        "panics inside third-party crates (rsa, serde_json, fastnbt, tokio) are covered by the differential runs only",
+    ],
+    "assumptions": ["adapters awaited inline return", "allocation bound is checked per single allocation request"],
+}
+PROPS["C08"] = {
+    "runner": "c08",
+    "design_ref": "DESIGN.md §6 C08",
+    "technique": "Lean 4 theorems: byte-level connection refines the frame-level machine under frameLevel (induction over arbitrary byte/event interleavings), segmentation independence, events commute with non-completing bytes, send path delivers whole frames in order under any partial-write/cancellation pattern; differential runs with every-frame splits, byte-by-byte delivery, events inside frames and prefixes, throttled writes",
+    "level_text": "Machine-checked proofs for every interleaving of bytes, ticks, adapter completions and EOF: the byte-level connection's packets, adapter calls and result equal those of the frame-level machine on the schedule in which each frame is placed where its last byte arrived (which never mentions segmentation); schedules delivering the same bytes with events at the same byte positions behave identically; a tick/completion/EOF commutes with any byte that does not complete a frame; on the send side, after any sends under any partial acceptance and cancellation pattern, accepted ++ pending is exactly the concatenation of whole frames in order. The real Connection is run on every variant (single split per frame, byte-by-byte, multi-split, events inside frames and inside length prefixes, throttled transport with futures dropped mid-write) and compared with the model and with the unsegmented run of the same scenario.",
+    "level_note": "Trusted: Lean kernel; L1 hand-written (the handler never reads beyond the frame it assembles, so byte-at-a-time consumption is its observable semantics) and tied by differential runs; tokio select! drops the losing future (modelled as cancel); duplex pipe and paused clock.",
+    "lean_modules": ["Passage.Props.C08"],
+    "cases": {"quick": 200, "thorough": 4000},
+    "rule": "base scenarios (status, login, transfer with cookie, long hosts/names so that length prefixes have two bytes, keep-alive traffic and ignorable frames during routing) x variants: one split per frame at a random offset, one byte at a time, random multi-splits, adapter completion or tick moved inside the preceding frame (body) or inside its length prefix, throttled writes (1-5 bytes then Pending) with the sending future dropped by an adapter completion; non-trivial = every variant other than the unsegmented base; distinct = distinct request lines",
+    "trusted_base": TB_COMMON + [
+        "L1 = frame assembler + L0 machine, hand transliteration of receive_packet/next_frame/send_packet; tied by differential byte-level runs of the real Connection (segmented writes, throttled transport, counting allocator, catch of task panics)",
+        "Env oracles as for the frame-level properties; tokio select!/take/read_buf semantics modelled",
+        "panics inside third-party crates (rsa, serde_json, fastnbt, tokio) are covered by the differential runs only",
+    ],
+    "assumptions": ["the transport delivers the client's bytes in order", "adapters awaited inline return"],
+}
 
 # properties not claimed yet (kept current; the reason is the honest status)
 NOT_YET = {f"C{i:02d}": "check not built yet in this round (planned per DESIGN.md §9); no claim is made until its check runs green" for i in range(1, 21)}
